@@ -431,3 +431,7 @@ func SortedKeys[V any](m map[string]V) []string {
 	sort.Strings(ks)
 	return ks
 }
+
+// NewReplayChooser returns a chooser that follows the given choice vector (and takes
+// choice 0 afterwards); used to re-execute one recorded path.
+func NewReplayChooser(prefix []int) *Chooser { return &Chooser{prefix: prefix, bound: 1 << 30} }
